@@ -32,6 +32,10 @@ func (e *Error) updateFromTokenIfNeeded(template *Template, t *Token) *Error {
 		if e.Line <= 0 {
 			e.Line = t.Line
 			e.Column = t.Col
+			if e.Filename == "" {
+				// A position is of use together with the source it lies in only
+				e.Filename = t.Filename
+			}
 		}
 	}
 
